@@ -187,9 +187,18 @@ struct RGen { std::mt19937_64 rng; uint64_t R(uint64_t n) { return rng() % n; }
     std::string list() { static const char types[] = "ihcfdsSbmrTFNIt"; JW w; w.arr(); unsigned n = (unsigned)R(13);
         while (n > 0) { unsigned k = (unsigned)R(12);
             if (k == 0 && n >= 3) { // constant or arithmetic run around the compression threshold
-                unsigned L = 3 + (unsigned)R(6); char t = "ihf"[R(3)]; long start = (long)R(40) - 20, delta = R(2) ? 0 : (long)R(7) - 3;
-                for (unsigned i = 0; i < L; ++i) { long v = start + (long)i * delta; w.obj().kstr("t", std::string(1, t)).key("v");
-                    if (t == 'i') w.limbs32((uint32_t)(int32_t)v); else if (t == 'h') w.limbs64((uint64_t)(int64_t)v); else { float f = (float)v * 0.25f; uint32_t u; memcpy(&u, &f, 4); w.limbs32(u); } w.end_obj(); }
+                unsigned L = 3 + (unsigned)R(6); bool wide = R(3) == 0; char t = wide ? "ihfdc"[R(5)] : "ihf"[R(3)]; long long start = (long long)R(40) - 20, delta = R(2) ? 0 : (long long)R(7) - 3;
+                if (wide) { // strides and starting points over the whole width of the type (no overflow along the run)
+                    static const long long hd[] = {1ll << 31, (1ll << 32) + 3, -((1ll << 32) + 1), 1ll << 33, 1ll << 59, -(1ll << 31), 0x7fffffffll, 0x100000000ll};
+                    static const long long id[] = {65536, 1 << 24, -(1 << 27), 100000, -1, 1 << 20};
+                    if (t == 'h') { start = (long long)(R(1ull << 61)) - (1ll << 60); delta = R(3) ? hd[R(8)] : (long long)R(1ull << 40) - (1ll << 39); }
+                    else if (t == 'i') { start = (long long)R(1u << 30) - (1 << 29); delta = id[R(6)]; }
+                    else if (t == 'c') { start = 40 + (long long)R(40); delta = (long long)R(4); }
+                    else { start = (long long)R(1 << 20) - (1 << 19); delta = (long long)R(1 << 16) - (1 << 15); } }
+                for (unsigned i = 0; i < L; ++i) { long long v = start + (long long)i * delta; w.obj().kstr("t", std::string(1, t)).key("v");
+                    if (t == 'i' || t == 'c') w.limbs32((uint32_t)(int32_t)v); else if (t == 'h') w.limbs64((uint64_t)(int64_t)v);
+                    else if (t == 'd') { double d = (double)v * 0.25; uint64_t u; memcpy(&u, &d, 8); w.limbs64(u); }
+                    else { float f = (float)v * 0.25f; uint32_t u; memcpy(&u, &f, 4); w.limbs32(u); } w.end_obj(); }
                 n = n > L ? n - L : 0; continue; }
             if (k == 1) { char et = "ifsTch"[R(6)]; unsigned L = (unsigned)R(9); w.obj().kstr("t", "a").kstr("et", std::string(1, et == 'T' && L == 0 ? 'T' : et)).key("v").arr();
                 for (unsigned i = 0; i < L; ++i) val(w, et == 'T' ? (R(2) ? 'T' : 'F') : et); w.end_arr().end_obj(); --n; continue; }
